@@ -30,7 +30,7 @@ URLPOOL = ["a.png", "img/b(1).gif", "a b", "it's", 'x"y', "a,b;c", "\xe9.png", "
            "", "url(x)", "a)b", "(", " ", "\xa0x", "\U0001d4b3", "http://h/p?q=1&r=2#f", "data:image/png;base64,AA==",
            "'", '"', "''", '""', "'a'", '"a"', "a'", 'a"', ")", ";", ",", " ", "\t", "x\ty", "\x00", "a\x1fb", "\x85",
            "　", "{", "}", "a}b{", "/*c*/", "*/", "!important", "@import", "﻿",
-           "c:\\dir\\f.png", "\\", "\\\\", "a\\", "\\5c", "\\a", "a\nb", "\r", "x\\\"y", "a\\ b", "\\g\\\\"]
+           "c:\\dir\\f.png", "\\", "\\\\", "a\\", "\\5c", "\\a", "a\nb", "\r", "a\\\nb", "\\\\\f", "x\\\"y", "a\\ b", "\\g\\\\"]
 BARE_OK = set("abcdefghijklmnopqrstuvwxyzABCDEFGHIJKLMNOPQRSTUVWXYZ0123456789._/-#?=&%:~+!$@*\xe9\U0001d4b3")
 
 
@@ -429,16 +429,14 @@ def model_fn_result(kind, line):
 
 # ---------------------------------------------------------------------------------------------- the oracle
 def in_set(u):
-    """the values helper.string can represent (CssV.QuoteFacts.rep_ok): everything except a backslash run of odd
-    length directly before a double quote and a backslash directly before a newline character"""
+    """the values helper.string can represent inside url() (CssV.QuoteStrFacts.rep_okc): everything except a backslash
+    run of odd length directly before a double quote"""
     st = 0
     for c in u:
         if c == "\\":
             st = {0: 1, 1: 2, 2: 1}[st]
             continue
-        if st == 1 and (c == '"' or c in "\n\r\f"):
-            return False
-        if st == 2 and c in "\n\r\f":
+        if st == 1 and c == '"':
             return False
         st = 0
     return True
@@ -764,8 +762,8 @@ ASSUME = [
     "document order inside @page = own declarations, then margin rules (the order of the object model and of the "
     "serializer; the generator writes them in that order)",
     "URL strings of the text-level theorems: every value helper.string can represent -- any code points, backslash and "
-    "\\n \\r \\f included, except a backslash run of odd length directly before a double quote and a backslash directly "
-    "before a newline character (C03's open finding on helper.string/stringvalue); the property's own set (no backslash, "
+    "\\n \\r \\f included, except a backslash run of odd length directly before a double quote "
+    "(C03's open finding on helper.string/stringvalue); the property's own set (no backslash, "
     "no newline) is a subset (uri_roundtrip_property_set)",
     "the replacer is a pure function in the model; the harness checks the order and number of its calls on the implementation",
     "an @import with an empty href is not a valid rule (CSSImportRule rejects it by design), so import hrefs are non-empty "
